@@ -14,7 +14,7 @@ Mirrors, as a state machine,
 The scalar type is a parameter: the driver runs the definitions at `Float` (`double`) and `Float32`
 (`float`), the theorems are stated at `ℝ` and `RN`.  Vectors are core `Vector`s (strict, O(1) access), built
 pointwise with `build`; `CellIndexes` (`Eigen::Matrix<size_t, DIM, 1>`) are `Int`s kept in `[0, 2^64)` by
-`wrap64`, because `cellIndexes[i] += rayStep_[i]` adds an `int` to a `size_t` (RayTracing.cpp:195 …), i.e.
+`wrap64`, because `cellIndexes[i] += rayStep_[i]` adds an `int` to a `size_t` (RayTracing.cpp:201), i.e.
 works modulo 2^64.
 
 Things the C++ leaves undefined and the model totalises (the generators stay clear of them, the harness and
@@ -54,9 +54,9 @@ def sumFrom {d : Nat} {β : Type} [Add β] (z : β) (f : Fin d → β) : β :=
 
 /-- The parts of `RayCasting<Scalar, DIM>` that are written (or compiled) per instantiation:
 * `pick`: the axis `next` advances — the decision trees of the four explicit specialisations
-  (RayTracing.cpp:189-261);
+  (RayTracing.cpp:211-275);
 * `sqNorm`: the order in which Eigen's `squaredNorm()` reduction adds the squares inside
-  `direction.norm()` (RayTracing.cpp:105).  With Eigen 3.4 / g++ -O3 on x86-64 (SSE2):
+  `direction.norm()` (RayTracing.cpp:106).  With Eigen 3.4 / g++ -O3 on x86-64 (SSE2):
   `Vector3d` is `(x² + y²) + z²` (one packet + remainder), `Vector3f` is `x² + (y² + z²)` (unrolled
   scalar tree); for two components the order is immaterial.  Over the reals all of them coincide. -/
 structure Spec (d : Nat) (α : Type) where
@@ -66,11 +66,11 @@ structure Spec (d : Nat) (α : Type) where
 section
 variable {α : Type} [Add α] [Sub α] [Mul α] [Div α] [LT α] [DecidableLT α]
 
-/-- `RayCasting<float|double, 2>::next`, RayTracing.cpp:194 / 208: `if (tMax[0] < tMax[1]) 0 else 1` -/
+/-- `RayCasting<float|double, 2>::next`, RayTracing.cpp:216 / 228: `if (tMax[0] < tMax[1]) 0 else 1` -/
 def pick2 (t : Vec 2 α) : Fin 2 :=
   if t.at 0 < t.at 1 then 0 else 1
 
-/-- `RayCasting<float|double, 3>::next`, RayTracing.cpp:221-237 / 244-260 -/
+/-- `RayCasting<float|double, 3>::next`, RayTracing.cpp:239-251 / 258-270 -/
 def pick3 (t : Vec 3 α) : Fin 3 :=
   if t.at 0 < t.at 1 then
     (if t.at 0 < t.at 2 then 0 else 2)
@@ -135,7 +135,7 @@ end
 
 /-! ### the caster (RayTracing.cpp) -/
 
-/-- members of `RayCasting<Scalar, DIM>`, RayTracing.hpp:69-78 (the grid pointer is passed separately) -/
+/-- members of `RayCasting<Scalar, DIM>`, RayTracing.hpp:72-82 (the grid pointer is passed separately) -/
 structure State (d : Nat) (α : Type) where
   o : Vec d α          -- rayOriginPoint_
   e : Vec d α          -- rayEndPoint_
@@ -145,52 +145,68 @@ structure State (d : Nat) (α : Type) where
   tDelta : Vec d α     -- rayTDelta_
   dir : Vec d α        -- rayDirection_
   step : Vec d Int     -- rayStep_ (int)
+  rem : Vec d Int      -- rayRemainingSteps_ (int): border crossings still to be made along each axis
 
 section
 variable {d : Nat} {α : Type} [Add α] [Sub α] [Mul α] [Div α] [LT α] [DecidableLT α]
   [NatCast α] [IntCast α] [OfScientific α] [Trans α] [Trunc α] [Limits α]
 
-/-- constructor, RayTracing.cpp:37-48: everything `Zero()` -/
+/-- constructor, RayTracing.cpp:37-49: everything `Zero()` -/
 def init : State d α :=
   let z : Vec d α := build fun _ => ((0 : Nat) : α)
   let zi : Vec d Int := build fun _ => 0
-  { o := z, e := z, oIdx := zi, eIdx := zi, tMax := z, tDelta := z, dir := z, step := zi }
+  { o := z, e := z, oIdx := zi, eIdx := zi, tMax := z, tDelta := z, dir := z, step := zi, rem := zi }
 
-/-- `setOriginPoint`, RayTracing.cpp:61-65.  Nothing else is touched: `tMax`, `tDelta`, `step`, `dir`
+/-- `setOriginPoint`, RayTracing.cpp:62-66.  Nothing else is touched: `tMax`, `tDelta`, `step`, `dir`, `rem`
     keep describing the previous ray. -/
 def setOrigin (G : Grid d α) (s : State d α) (p : Vec d α) : State d α :=
   { s with o := p, oIdx := cellIndexes G p }
 
-/-- `setEndPoint`, RayTracing.cpp:96-130 -/
+/-- `setEndPoint`, RayTracing.cpp:97-140.  After the Amanatides–Woo initialisation the number of border
+    crossings along each axis is recorded (`int` arithmetic on the `size_t` indexes), and an axis that has none
+    gets the sentinel as crossing parameter whatever its direction component says. -/
 def setEnd (sp : Spec d α) (G : Grid d α) (s : State d α) (p : Vec d α) : State d α :=
-  let eIdx := cellIndexes G p                                           -- :99
-  let c := centre G s.oIdx                                              -- :101-102
-  let direction : Vec d α := build fun i => p.at i - s.o.at i           -- :104
-  let range := Trans.sqrt (sp.sqNorm direction)                         -- :105
-  let dir : Vec d α := build fun i => direction.at i / range            -- :106
-  let step : Vec d Int := build fun i =>                                -- :110-116
+  let eIdx := cellIndexes G p                                           -- :100
+  let c := centre G s.oIdx                                              -- :102-103
+  let direction : Vec d α := build fun i => p.at i - s.o.at i           -- :105
+  let range := Trans.sqrt (sp.sqNorm direction)                         -- :106
+  let dir : Vec d α := build fun i => direction.at i / range            -- :107
+  let step : Vec d Int := build fun i =>                                -- :111-117
     if dir.at i > ((0 : Nat) : α) then 1 else if dir.at i < ((0 : Nat) : α) then -1 else 0
-  let tMax : Vec d α := build fun i =>                                  -- :119-128
-    if step.at i ≠ 0 then
-      let voxelBorder := c.at i + ((step.at i : α) * G.r * half)        -- :121-122
-      (voxelBorder - s.o.at i) / dir.at i                               -- :123
-    else Limits.maxVal                                                  -- :126
-  let tDelta : Vec d α := build fun i =>
-    if step.at i ≠ 0 then G.r / Trans.abs (dir.at i)                    -- :124
+  let rem : Vec d Int := build fun i =>                                 -- :134-135
+    iabs (toInt32 (eIdx.at i) - toInt32 (s.oIdx.at i))
+  let tMax : Vec d α := build fun i =>
+    if rem.at i = 0 then Limits.maxVal                                  -- :136-138
+    else if step.at i ≠ 0 then                                          -- :120-129
+      let voxelBorder := c.at i + ((step.at i : α) * G.r * half)        -- :122-123
+      (voxelBorder - s.o.at i) / dir.at i                               -- :124
     else Limits.maxVal                                                  -- :127
-  { s with e := p, eIdx := eIdx, dir := dir, step := step, tMax := tMax, tDelta := tDelta }
+  let tDelta : Vec d α := build fun i =>
+    if step.at i ≠ 0 then G.r / Trans.abs (dir.at i)                    -- :125
+    else Limits.maxVal                                                  -- :128
+  { s with e := p, eIdx := eIdx, dir := dir, step := step, tMax := tMax, tDelta := tDelta, rem := rem }
 
-/-- `computeRayNumberOfCells`, RayTracing.cpp:81-82:
+/-- `computeRayNumberOfCells`, RayTracing.cpp:82-83:
     `(end.cast<int>() - origin.cast<int>()).array().abs().sum() + 1`, returned as `size_t` -/
 def numCells (s : State d α) : Int :=
   wrap64 (sumFrom (0 : Int) (fun i => iabs (toInt32 (s.eIdx.at i) - toInt32 (s.oIdx.at i))) + 1)
 
-/-- `next(cellIndexes)`, RayTracing.cpp:189-261: advance along the axis chosen by the decision tree;
-    the index moves by `rayStep_` (modulo 2^64), that axis' crossing parameter by `rayTDelta_`. -/
+/-- `step_(cellIndexes, axis)`, RayTracing.cpp:199-207: the index moves by `rayStep_` (modulo 2^64);
+    `if (rem > 0 && --rem == 0) tMax = max; else tMax += tDelta` — the decrement only happens when `rem > 0`. -/
+def stepAxis (s : State d α) (c : Vec d Int) (a : Fin d) : State d α × Vec d Int :=
+  let c' := upd c a (wrap64 (c.at a + s.step.at a))
+  if s.rem.at a > 0 then
+    let r' := s.rem.at a - 1
+    if r' = 0 then
+      ({ s with rem := upd s.rem a r', tMax := upd s.tMax a Limits.maxVal }, c')
+    else
+      ({ s with rem := upd s.rem a r', tMax := upd s.tMax a (s.tMax.at a + s.tDelta.at a) }, c')
+  else
+    ({ s with tMax := upd s.tMax a (s.tMax.at a + s.tDelta.at a) }, c')
+
+/-- `next(cellIndexes)`, RayTracing.cpp:211-275: `step_` along the axis chosen by the decision tree -/
 def next (sp : Spec d α) (s : State d α) (c : Vec d Int) : State d α × Vec d Int :=
-  let a := sp.pick s.tMax
-  ({ s with tMax := upd s.tMax a (s.tMax.at a + s.tDelta.at a) },
-   upd c a (wrap64 (c.at a + s.step.at a)))
+  stepAxis s c (sp.pick s.tMax)
 
 /-- `k` consecutive `next` calls, recording the cell after each -/
 def steps (sp : Spec d α) : Nat → State d α → Vec d Int → State d α × List (Vec d Int)
@@ -200,17 +216,17 @@ def steps (sp : Spec d α) : Nat → State d α → Vec d Int → State d α × 
     let rest := steps sp k r.1 r.2
     (rest.1, r.2 :: rest.2)
 
-/-- `cast()`, RayTracing.cpp:161-175: `N = computeRayNumberOfCells()`, first cell = origin cell, then
+/-- `cast()`, RayTracing.cpp:171-185: `N = computeRayNumberOfCells()`, first cell = origin cell, then
     `N - 1` steps (`while (++n != N)`).  `N ≥ 1` whenever the `int` sum did not overflow. -/
 def cast (sp : Spec d α) (s : State d α) : State d α × List (Vec d Int) :=
   let r := steps sp ((numCells s).toNat - 1) s s.oIdx
   (r.1, s.oIdx :: r.2)
 
-/-- `cast(endPoint)`, RayTracing.cpp:152-156 -/
+/-- `cast(endPoint)`, RayTracing.cpp:162-166 -/
 def castTo (sp : Spec d α) (G : Grid d α) (s : State d α) (e : Vec d α) : State d α × List (Vec d Int) :=
   cast sp (setEnd sp G s e)
 
-/-- `cast(originPoint, endPoint)`, RayTracing.cpp:181-185 -/
+/-- `cast(originPoint, endPoint)`, RayTracing.cpp:191-195 -/
 def castOE (sp : Spec d α) (G : Grid d α) (s : State d α) (o e : Vec d α) : State d α × List (Vec d Int) :=
   castTo sp G (setOrigin G s o) e
 
